@@ -210,3 +210,33 @@ Proof.
   - intros H. apply path_class_iff in H; [|repeat constructor; cbn; intuition discriminate].
     apply check_class_all_spec in H; [|repeat constructor; cbn; intuition discriminate]. vm_compute in H. discriminate.
 Qed.
+
+(* ---------------------------------------------------------------------------------------------------
+   Nodes without a tracklet id (DataValLemmas.v).  validate_data removes the nodes whose tracklet id is flagged missing
+   from the node list but passes ALL the edges, so edges mention ids that carry no label: wf_labelled fails and
+   C13_iff_all / C13_iff_paths do not apply.  The path characterisation needs no such hypothesis:
+   --------------------------------------------------------------------------------------------------- *)
+From Geff Require Import DataValLemmas.
+
+(* for EVERY edge list (endpoints outside the node list allowed; their degrees count, as in the networkx graph G) the
+   validator returns (True, []) iff every tracklet is a maximal unbranched simple path of the graph; an unlabelled node
+   joined to the end of a tracklet by an edge that is the only one leaving its source and entering its target makes the
+   tracklet not maximal *)
+Theorem C13_iff_paths_any : forall E NL, NoDup (nodes_of NL) ->
+  (validate_tracklets E NL = Ok (true, []) <-> spec_paths E NL).
+Proof. exact tracklets_iff_paths_any. Qed.
+Print Assumptions C13_iff_paths_any.
+
+(* non-vacuity: chain 1->2->3->4 with node 2 unlabelled: {1} can be extended forward to 2 and {3,4} backward to 2, both are
+   named; division 1->2, 1->3 with node 1 unlabelled: {2} and {3} are maximal unbranched paths (the edges from 1 leave a
+   division), accepted -- and through the theorem: they ARE maximal unbranched paths of the graph *)
+Example C13_unlabelled_nonvacuous :
+  validate_tracklets [(1, 2); (2, 3); (3, 4)] [(1, 7); (3, 8); (4, 8)] = Ok (false, [(7, RFwd 2); (8, RBack 2)]) /\
+  validate_tracklets [(1, 2); (1, 3)] [(2, 7); (3, 8)] = Ok (true, []) /\
+  spec_paths [(1, 2); (1, 3)] [(2, 7); (3, 8)] /\
+  ~ spec_paths [(1, 2); (2, 3); (3, 4)] [(1, 7); (3, 8); (4, 8)].
+Proof.
+  split; [vm_compute; reflexivity|]. split; [vm_compute; reflexivity|]. split.
+  - apply C13_iff_paths_any; [repeat constructor; cbn; intuition discriminate | vm_compute; reflexivity].
+  - intros H. apply C13_iff_paths_any in H; [|repeat constructor; cbn; intuition discriminate]. vm_compute in H. discriminate.
+Qed.
